@@ -977,6 +977,71 @@ def special_c01(res, tier, seed, workdir, stats):
     _c01_cross(res, tier, seed, workdir, stats)
 
 
+SKEL_LEAN = os.path.join(hh.LEAN, "HH", "Generated", "Skeleton.lean")
+SKEL_TAGS = {"PortableHash": "portable", "SseHash": "sse", "AvxHash": "avx", "NeonHash": "neon", "WasmHash": "wasm"}
+
+
+def skeleton_translation(res, tier, seed, workdir, stats, pid="C05"):
+    """tie of the CONTROL SKELETON that C05's buffering theorem is about: `skelgen` translates `append` (data of symbolic
+    length: the buffer test, the chunk loop as `absorb`, fill / set_to / inner as their Pkt models, `update(data_to_lanes(..))`
+    as the abstract `upd`) and the prologue of finalize64/128/256 (remainder test, round count) of all five back ends from the
+    working tree, and each is proved equal to the model's `appendG` / `finalizeCommon K` for every state and byte string (rfl).
+    Advisory: an untranslatable function is 'not translated'; a failing theorem escalates the search, never an alarm by itself."""
+    cdir = os.path.join(hh.ROOT, "harness", "facts")
+    rc, out, err = hh.sh(["cargo", "build", "--offline", "--release", "-q"], cwd=cdir, env={"CARGO_TARGET_DIR": os.path.join(hh.BUILD, "t-facts")}, timeout=1800)
+    info = dict(translator="harness/facts/src/bin/skelgen.rs (syn; state-passing translation of append and the finalize prologues, calls mapped to the models of their callees)")
+    res.cov["skeleton_translation"] = info
+    if rc != 0:
+        info["status"] = "not executed: translator does not build"
+        return
+    tmp = SKEL_LEAN + ".new"
+    status_json = os.path.join(hh.BUILD, "skelgen.json")
+    rc, out, err = hh.sh([os.path.join(hh.BUILD, "t-facts", "release", "skelgen"), os.path.join(hh.REPO, "src"), tmp, status_json], timeout=300)
+    if rc != 0:
+        info["status"] = "not executed: translator failed: " + (out + err)[-300:]
+        return
+    new = open(tmp).read()
+    old = open(SKEL_LEAN).read() if os.path.exists(SKEL_LEAN) else None
+    if new != old:
+        os.replace(tmp, SKEL_LEAN)
+    else:
+        os.unlink(tmp)
+    st = json.load(open(status_json))
+    info["functions"] = st
+    translated = [k for k, v in st.items() if v == "translated"]
+    thms = []
+    for f in translated:
+        ty, fn = f.split("::")
+        tag = SKEL_TAGS.get(ty)
+        if not tag:
+            continue
+        thms += [f"HH.Gen.Skel.append_{tag}_eq", f"HH.Gen.Skel.append_{tag}_model"] if fn == "append" else [f"HH.Gen.Skel.{fn}_pro_{tag}_eq"]
+    ok, blog = hh.lake_build(["HH.Generated.Skeleton"])
+    if ok:
+        ax, text = hh.audit_axioms("HH.Generated.Skeleton", thms)
+        good = [t for t in thms if ax.get(t) is not None and not (ax[t] - hh.STD_AXIOMS)]
+        info["theorems_checked"] = len(good)
+        info["status"] = f"{len(translated)}/{len(st)} functions translated from the working tree; {len(good)}/{len(thms)} theorems (translated skeleton = appendG / finalizeCommon of the model, all states and byte strings) checked by the kernel"
+        if len(good) == len(thms):
+            return
+    errs = [l for l in blog.split("\n") if "error" in l][:6]
+    info["status"] = (info.get("status", "") + " | generated theorems do not all check: " + " ".join(errs))[:900]
+    res.notes.append(f"the translated append / finalize skeleton no longer equals the model by definitional unfolding: escalating the {pid} search (thorough generator on the real code)")
+    binp, _ = hh.build_runner("dev-std-base")
+    if binp:
+        i2 = hh.runner_info(binp)
+        st2 = check_mod().run_config(res, pid, "thorough", seed * 4099 + 23, "dev-std-base", binp, i2, workdir, label="esc-skel")
+        stats.append(dict(st2, escalation="skeleton translation"))
+
+
+_c05_cross = mk_cross("C05", gen_cross_c05, ["s390x", "i686"])
+
+
+def special_c05(res, tier, seed, workdir, stats):
+    skeleton_translation(res, tier, seed, workdir, stats)
+    _c05_cross(res, tier, seed, workdir, stats)
+
+
 _c14_cross = mk_cross("C14", gen_cross_c14)
 
 
@@ -986,7 +1051,7 @@ def special_c14(res, tier, seed, workdir, stats):
     _c14_cross(res, tier, seed, workdir, stats)
 
 
-T.SPECIAL.update({"C02": simd_translation, "C01": special_c01, "C05": mk_cross("C05", gen_cross_c05, ["s390x", "i686"]), "C06": mk_cross("C06", gen_cross_c06),
+T.SPECIAL.update({"C02": simd_translation, "C01": special_c01, "C05": special_c05, "C06": mk_cross("C06", gen_cross_c06),
                   "C07": special_c07, "C12": mk_cross("C12", gen_cross_c12),
                   "C11": mk_cross("C11", gen_cross_c11, ["s390x", "i686"]), "C13": mk_cross("C13", gen_cross_c13), "C14": special_c14})
 T.SPECIAL.update({"C15": special_c15, "C09": special_c09, "C03": special_c03, "C04": special_c04, "C08": special_c08, "C16": special_c16, "C17": special_c17, "C18": special_c18})
